@@ -189,7 +189,6 @@ def real_analyses():
         "Variable+Sum": lambda: (num(), lena.math.Sum()),
         "Variable+Mean": lambda: (num(), lena.math.Mean()),
         "Variable+Histogram": lambda: (num(), lena.structures.Histogram([0, 2, 4, 9])),
-        "Variable+VarianceMeanCount": lambda: (num(), lena.math.Vectorize(lena.math.Sum()) if False else lena.math.Sum(),),
     }
 
 
